@@ -465,7 +465,8 @@ def validate_trace(ctx, res, timeout=900):
     n = len(res["tindex"])
     if n == 0:
         return [], []
-    r = ctx.tlc("ReloadTrace", "ReloadTrace.cfg", workers=1, timeout=timeout, env={"TRACE": res["trace"]}, heap="3g")
+    r = ctx.tlc("ReloadTrace", "ReloadTrace.cfg", workers=1, timeout=timeout, env={"TRACE": res["trace"]}, heap="3g",
+                java_opts=["-Xss256m"])      # the file-tree walk recurses over the entries of a section
     if not r.ok:
         raise MachineryError("ReloadTrace run failed (%s):\n%s" % (r.violated, r.violation_text[:3000]))
     if r.depth != n + 1 and r.distinct != n + 1:
